@@ -54,7 +54,7 @@ def ob_kernel_many(W, backend, fam, mode, L, start_list, order, N, stats, chunk=
                 W.goal("%s/%s" % (tag, nm), W.eq(g, r))
 
 
-def ob_reuse(W, backend, fam, mode, L, starts, order, N):
+def ob_reuse(W, backend, fam, mode, L, starts, order, N, first_order=None):
     """call history: a second call with the SAME record buffers overwritten in place and a NEW window of the same length
     must give the statistics of the new contents (nothing cached from the first call may be reused)"""
     import numpy as rnp
@@ -62,7 +62,7 @@ def ob_reuse(W, backend, fam, mode, L, starts, order, N):
     w = W.reals("w", L); w2 = W.reals("v", L)
     x2 = W.reals("p", N); y2 = W.reals("q", N) if mode == "csd" else x2
     omega = W.omega("w")
-    K.run(W, backend, fam, mode, x, y, starts, L, w, omega, order)
+    K.run(W, backend, fam, mode, x, y, starts, L, w, omega, order if first_order is None else first_order)   # first_order: the earlier call detrended with another order
     x[:] = x2
     if mode == "csd":
         y[:] = y2
@@ -147,6 +147,9 @@ def obligations(tier):
                                                 "params": dict(backend=backend, fam=fam, mode=mode, L=L, start_list=[list(v) for v in sub[ci:ci + 16]], order=order, N=L + 3, stats=["M2"], chunk=chunk)})
                 obs.append({"name": "%s/%s_%s/o%d/reuse" % (backend, fam, mode, order), "fn": "ob_reuse", "weight": 3,
                             "params": dict(backend=backend, fam=fam, mode=mode, L=3, starts=[1, 0], order=order, N=5)})
+                if fam == "poly":
+                    obs.append({"name": "%s/%s_%s/o%d/reuse-after-other-order" % (backend, fam, mode, order), "fn": "ob_reuse", "weight": 4,
+                                "params": dict(backend=backend, fam=fam, mode=mode, L=4, starts=[1, 0], order=order, N=6, first_order=3 - order)})
     seen, out = set(), []
     for o in obs:
         if o['name'] not in seen:
